@@ -536,12 +536,10 @@ def p_reproject(src_shape, dst_shape, A, kw):
     xs = [G.aapply(T, c) for c in ((0, 0), (mx, 0), (mx, my), (0, my))]
     bx0, bx1 = min(p[0] for p in xs), max(p[0] for p in xs)
     by0, by1 = min(p[1] for p in xs), max(p[1] for p in xs)
-    # margin: the padding below the image; padding + align - 1 above it (an aligned start may reach back)
-    al = (kw.get("align") or 1) - 1
-    # "more than": strict, with 1e-6 px of slack so that binary64 noise in the implementation's own
-    # inverse affine cannot decide the case
+    # margin: the padding, whatever the alignment.  "more than": strict, with 1e-6 px of slack so that binary64
+    # noise in the implementation's own inverse affine cannot decide the case
     eps = Fr(1, 10 ** 6)
-    if mx > 0 and my > 0 and (bx1 < -pad - eps or by1 < -pad - eps or bx0 > nx + pad + al + 1 + eps or by0 > ny + pad + al + 1 + eps):
+    if mx > 0 and my > 0 and (bx1 < -pad - eps or by1 < -pad - eps or bx0 > nx + pad + eps or by0 > ny + pad + eps):
         if (sy1 - sy0) * (sx1 - sx0) != 0 or (dy1 - dy0) * (dx1 - dx0) != 0:
             return False, why + ": regions not empty although the rasters are separated by more than the padding"
     for dy in range(my):
@@ -869,6 +867,22 @@ def global_stream(rng, n):
                [res_x, 0.0, X0, 0.0, -res_y, Y1], {"padding": rng.choice([None, None, 2]), "align": None}, 3, 1.0]
 
 
+def polar_stream(rng, n):
+    """polar stereographic / polar LAEA sources whose footprint contains the pole, lon/lat destination bands"""
+    for i in range(n):
+        crs, south = [("EPSG:3413", False), ("EPSG:3031", True), ("EPSG:3995", False), ("EPSG:3976", True)][i % 4]
+        half = rng.choice([1.5e6, 2e6, 3e6])
+        res = rng.choice([10000.0, 20000.0, 25000.0])
+        ox, oy = rng.uniform(-0.3, 0.3) * half, rng.uniform(-0.3, 0.3) * half
+        nside = int(2 * half / res)
+        src_aff = [res, 0.0, -half + ox, 0.0, -res, half + oy]
+        dres = rng.choice([0.1, 0.25, 0.5])
+        lat0 = rng.choice([50.0, 60.0, 70.0])
+        dny, dnx = int((90 - lat0) / dres), int(360 / dres)
+        dst_aff = [dres, 0.0, -180.0, 0.0, -dres, (-lat0 if south else 90.0)]
+        yield [crs, [nside, nside], src_aff, "EPSG:4326", [dny, dnx], dst_aff, {"padding": None, "align": None}, 4, 1.0]
+
+
 def custom_crs(kind, lon0, lat0, uid):
     if kind == "laea":
         return f"+proj=laea +lat_0={lat0} +lon_0={lon0} +x_0=0 +y_0=0 +datum=WGS84 +units=m +no_defs +title=c03scene{uid:06d}"
@@ -1019,6 +1033,10 @@ def search(out, tier):
     for args in global_stream(core.rng("c03-global"), 12 if tier == "quick" else 150):
         out.count("search-family:crs-global")
         run("crs_inclusion", *args)
+    # same CRS, thousands of pixels, tiny rotation / shear below and above the paste tolerances
+    for args in large_stream(core.rng("c03-large"), 30 if tier == "quick" else 300):
+        out.count("search-family:large-tiny-rotation")
+        run("reproject_edges", *args)
     # per axis: exhaustive over small sizes, scales incl. mirrored / fractional, quarter-pixel offsets
     sizes = [0, 1, 2, 3, 4, 7] if tier == "quick" else [0, 1, 2, 3, 4, 5, 7, 11]
     scales = [Fr(1), Fr(2), Fr(3), Fr(1, 2), Fr(3, 2), Fr(2, 3), Fr(1, 3), Fr(5, 4), Fr(7, 3)]
@@ -1081,19 +1099,33 @@ def search(out, tier):
         detail = last["detail"]
         if "EDGE-SLIVER" in detail:
             slivers.append((args, detail[detail.index("EDGE-SLIVER"):]))
-    # open finding: replay its recorded witness, report through the known-findings channel once it is listed
+    # polar sources that contain the pole in their interior -> lon/lat bands: the pole maps to a whole destination row
+    # that no sample of the source PERIMETER reaches (open finding crs-pole-interior)
+    poles = []
+    for args in polar_stream(core.rng("c03-polar"), 4 if tier == "quick" else 40):
+        out.count("search-family:crs-polar(open finding)")
+        out.count("predicate:crs_inclusion")
+        ok_p, detail_p = p_crs_inclusion(*args)
+        if not ok_p:
+            poles.append((args, detail_p))
+    # open findings: replay the recorded witnesses, report through the known-findings channel once they are listed
+    hits = {"crs-edge-sliver": slivers, "crs-pole-interior": poles}
     for rp in core.corpus(ID):
-        if rp.get("open_key") == "crs-edge-sliver":
+        if rp.get("open_key") in hits:
             ok_w, detail_w = p_crs_inclusion(*rp["args"])
             out.count("predicate:crs_inclusion(open witness)")
             if not ok_w:
-                slivers.append((rp["args"], detail_w))
-    if slivers:
-        out.notes.append(f"open finding crs-edge-sliver: {len(slivers)} continental cross-CRS plan(s) drop needed destination pixels that map "
-                         f"less than one source pixel inside a curved source edge; first: {slivers[0][1][:300]}")
-        if "crs-edge-sliver" in core.open_findings(ID):
-            out.violation("crs-edge-sliver", slivers[0][1], {"predicate": "crs_inclusion", "args": slivers[0][0][:8] + [0.0],
-                                                             "observed": slivers[0][1]})
+                hits[rp["open_key"]].append((rp["args"], detail_w))
+    what = {"crs-edge-sliver": "continental cross-CRS plan(s) drop needed destination pixels that map less than one source pixel inside a curved source edge",
+            "crs-pole-interior": "plan(s) from a polar source containing the pole into a lon/lat grid drop the destination rows / columns around the pole"}
+    for key, lst in hits.items():
+        if lst:
+            out.notes.append(f"open finding {key}: {len(lst)} {what[key]}; first: {lst[0][1][:300]}")
+            if key in core.open_findings(ID):
+                a0 = list(lst[0][0])
+                if key == "crs-edge-sliver":
+                    a0 = a0[:8] + [0.0]
+                out.violation(key, lst[0][1], {"predicate": "crs_inclusion", "args": a0, "observed": lst[0][1]})
     # histories: an earlier public transformer_to_crs call (either axis order, either direction) on the same
     # CRS pair must not change planning; every case uses a UTM zone not touched before in this process
     hists = [[["fwd", False]], [["rev", False]], [["fwd", False], ["fwd", True]], [["rev", False], ["fwd", False]],
@@ -1139,6 +1171,58 @@ def p_big(src_shape, dst_shape, A, kw):
             if not (dx0 <= dx < dx1 and dy0 <= dy < dy1 and sx0 <= kx < sx1 and sy0 <= ky < sy1):
                 return False, why + f": destination pixel (x={dx},y={dy}) maps to source pixel (x={kx},y={ky}) but is not covered"
     return True, why
+
+
+def p_reproject_edges(src_shape, dst_shape, A, kw, n):
+    """same CRS, rasters of thousands of pixels (too large to enumerate): n destination pixels along each edge,
+    each diagonal and the two centre lines are judged in exact Fraction arithmetic like `reproject` does
+    for every pixel: a needed pixel must be in roi_dst and its source pixel in roi_src"""
+    src, dst, r = _reproj(src_shape, dst_shape, A, kw)
+    T = G.true_A(src, dst)
+    (ny, nx), (my, mx) = src.shape, dst.shape
+    (sy0, sy1), (sx0, sx1) = [(s.start, s.stop) for s in r.roi_src]
+    (dy0, dy1), (dx0, dx1) = [(s.start, s.stop) for s in r.roi_dst]
+    k = r.read_shrink
+    why = f"roi_src={r.roi_src} roi_dst={r.roi_dst} paste_ok={r.paste_ok} read_shrink={k} scale={r.scale}"
+    lim_y, lim_x = -(-ny // k) * k, -(-nx // k) * k
+    if not (0 <= sy0 <= sy1 <= lim_y and 0 <= sx0 <= sx1 <= lim_x and 0 <= dy0 <= dy1 <= my and 0 <= dx0 <= dx1 <= mx):
+        return False, why + ": region outside its image"
+    if mx == 0 or my == 0:
+        return True, why
+    ts = [Fr(i, n - 1) for i in range(n)]
+    xs = sorted({min(mx - 1, int(t * (mx - 1))) for t in ts})
+    ys = sorted({min(my - 1, int(t * (my - 1))) for t in ts})
+    pts = {(x, y) for x in xs for y in (0, my - 1, my // 2)} | {(x, y) for y in ys for x in (0, mx - 1, mx // 2)}
+    pts |= {(min(mx - 1, int(t * (mx - 1))), min(my - 1, int(t * (my - 1)))) for t in ts}
+    pts |= {(min(mx - 1, int(t * (mx - 1))), min(my - 1, int((1 - t) * (my - 1)))) for t in ts}
+    for dx, dy in sorted(pts):
+        px, py = G.aapply(T, (dx + Fr(1, 2), dy + Fr(1, 2)))
+        if 0 <= px < nx and 0 <= py < ny:
+            kx, ky = math.floor(px), math.floor(py)
+            if not (dx0 <= dx < dx1 and dy0 <= dy < dy1 and sx0 <= kx < sx1 and sy0 <= ky < sy1):
+                return False, why + f": destination pixel (x={dx},y={dy}) maps to source pixel (x={kx},y={ky}) but is not covered"
+    return True, why
+
+
+def large_stream(rng, n):
+    """same-CRS rasters of 1500..6000 pixels related by a whole-pixel shift (partial overlap) plus a tiny
+    rotation / shear on either side of the paste tolerances: an off-diagonal term b ignored by the plan moves
+    the far end by b * N pixels"""
+    for i in range(n):
+        ns = [rng.randint(1500, 6000), rng.randint(1500, 6000)]
+        nd = [rng.randint(1500, 6000), rng.randint(1500, 6000)]
+        b = rng.choice([Fr(1, 2 ** 11), Fr(1, 2 ** 12), Fr(3, 2 ** 13), Fr(1, 2 ** 10) - Fr(1, 2 ** 16), Fr(1, 2 ** 9), Fr(1e-10) / 2, Fr(1, 2 ** 20)])
+        b *= rng.choice([1, -1])
+        kind = rng.choice(["rot", "rot", "shear_x", "shear_y"])
+        wx, wy = (-b, b) if kind == "rot" else ((b, Fr(0)) if kind == "shear_x" else (Fr(0), b))
+        sx, sy = rng.choice([1, 1, -1]), rng.choice([1, 1, -1])
+        ox = rng.randint(-nd[1] // 2, ns[1] // 2) + (nd[1] if sx < 0 else 0)
+        oy = rng.randint(-nd[0] // 2, ns[0] // 2) + (nd[0] if sy < 0 else 0)
+        kw = {"ttol": 0.05, "stol": 1e-3, "padding": rng.choice([None, None, 0]), "align": rng.choice([None, None, 0])}
+        yield [ns, nd, [str(Fr(sx)), str(wx), str(Fr(ox)), str(wy), str(Fr(sy)), str(Fr(oy))], kw, 40]
+
+
+PREDICATES["reproject_edges"] = p_reproject_edges
 
 
 def enc(x):
@@ -1218,8 +1302,10 @@ META = {
              "the evidence notes; irrational scales (rotations that are not Pythagorean) are outside the executable model (the "
              "theorems state sx^2 = a^2+d^2 for whichever root the model is given).  Domain corrections (not findings): on the "
              "paste path inclusion is stated for true locations within half a pixel of the snapped transform, because a tolerated "
-             "scale deviation accumulates over the image; with align the 'separated -> empty' margin above the image is padding + "
-             "align - 1.  The model follows the code after three repairs: _can_paste '>= stol', align=0 treated as None, "
+             "scale deviation accumulates over the image (documented paste tolerance stol; the search keeps N*stol + ttol < 1/2).  "
+             "Open findings (unchanged code): crs-edge-sliver, crs-pole-interior.  "
+             "The model follows the code after four repairs: _relative_rois aligns only when the un-aligned envelope meets the "
+             "image, _can_paste '>= stol', align=0 treated as None, "
              "roi_boundary in float64 (witnesses in corpus/C03, corpus/C10)."),
     "technique": "Coq proof over hand-written Gallina model + exact differential correspondence (vm_compute) + exact brute-force search + leaf functions regenerated from source by py2v on every run and proved equal to the model (source_is_model theorem)",
     "design_ref": "DESIGN.md section 5, C03",
